@@ -174,7 +174,7 @@ def gen_cases(tier, seed):
             if a[0] * d > (82 * 16 if thorough else 32 * 32):
                 continue
             cases.append({"k": "hw", "a": a, "d": d, "cs": _cycles(rng, d, rng.randrange(4, 21)), "src": name})
-    for _ in range(1500 if thorough else 220):
+    for _ in range(1200 if thorough else 220):
         a = _rand_algo(rng, 40 if thorough else 16)
         d = rng.choice(_widths(a[0]) + [rng.randrange(1, 20)])
         if d > 24:
@@ -205,7 +205,7 @@ def gen_cases(tier, seed):
                 cases.append({"k": "match", "a": a, "d": d, "kk": k, "ws": ws, "tx": tx, "src": src})
     for name in (names if thorough else HW_SUBSET[:17] + ["CRC12_UMTS", "CRC12_DECT", "CRC16_EN_13757", "CRC10_GSM"]):
         match_cases(live[name], name, 3)
-    for _ in range(400 if thorough else 60):
+    for _ in range(250 if thorough else 60):
         match_cases(_rand_algo(rng, 32 if thorough else 12), "rand", 3)
     # malformed
     for _ in range(300 if thorough else 60):
